@@ -35,6 +35,9 @@ CLAIMED = {
     "C07": ("About the index / exponent / guard expressions translated from periodic_value_iteration.py on every run: the circular-buffer invariant (slot i mod (p+1) holds V_i for the last p+1 iterates) holds after ANY number of sweeps; the number compared with epsilon equals the documented measure of the true VI iterates (infinite before a full period, span(V_n - V_(n-p)) for gamma = 1, span of the discount-corrected sum otherwise); solve() from the fresh solver returns plain VI iterates, the greedy policy, stops at the FIRST n >= p below epsilon; d-step gain bracket and |V_n - V_(n-p) - p g*| < eps at convergence for gamma = 1 with no aperiodicity assumption. Runs (incl. periodic cycles, buffers wrapping >= 5 times, history clearing) compared bit-exactly incl. the whole value_history.",
             "Coq 8.16.1 kernel; translator gen_periodic.py; the sweep itself and numpy buffer mutation are hand-modelled (functional update) and tied by correspondence; gamma restricted to powers of two in the exact regime.",
             "Coq proof over source-translated index expressions + bit-exact run/buffer correspondence", "6 C07"),
+    "C06": ("PARTIAL proof + exact correspondence. Proved for every well-formed MDP: the per-device scan (carried vector, masked scatter, padding rows, ANY resolution order of duplicate scatter indices) outputs exactly the block Gauss-Seidel values and padding never influences a real state; undoing the permutation with argsort restores natural order for every permutation; for EVERY partition the block Gauss-Seidel operator is a gamma-contraction (one-sided form) with exactly the fixed points of synchronous VI, hence the C01 max_diff bounds for every partition/permutation. Not proved: the composition of the device scan with the prepare/unbatch positions into one statement about the whole sweep (named in Props/C06.v); that composition is exercised exactly: every sweep is compared bit-for-bit with the model (both scatter orders) and with an independent block Gauss-Seidel driven by the recorded permutation, permutations are checked to be permutations, redrawn per sweep, equal to the documented seeded draw, and reproducible.",
+            "Coq 8.16.1 kernel; scan/scatter hand-modelled (Model/SemiAsync.v) tied by per-sweep correspondence; jax.random.permutation is an oracle (input of the model) checked by recomputation; hook MDPAX_VERIF=1 records the permutation (fallback: documented key splitting).",
+            "Coq proof (device scan = block Gauss-Seidel; contraction/fixed points for every partition) + per-sweep bit-exact correspondence with recorded permutations", "6 C06"),
 }
 
 man = {
